@@ -198,6 +198,16 @@ pub fn main(a: Args) -> i32 {
         let mut del = r.chance(1, 2);
         let nex = if r.chance(1, 2) { 0 } else { 1 + r.below(2) as usize };
         let mut excludes: Vec<String> = (0..nex).map(|_| r.pick(&pats).to_string()).collect();
+        // every pattern of the list counts, in any order: one list in three starts with a whole-path pattern (it contains
+        // `/`) that matches nothing, followed by a pattern that matches an existing name
+        if r.chance(1, 3) {
+            let mut l = vec!["zz/*.none".to_string()];
+            if let Some((p, _, _, _)) = src.first().or(dst.first()) {
+                l.push(p.rsplit('/').next().unwrap_or(p).to_string());
+            }
+            l.extend(excludes.drain(..).take(1));
+            excludes = l;
+        }
         let jobs = *r.pick(&[1usize, 2, 4, 16]);
         let mut dir = r.below(3); // 0 local, 1 push, 2 pull
         if a.replay.is_some() {
